@@ -20,7 +20,7 @@ ASSUMPTIONS = ['operands are kept in core-domain formats (objects with n_word>52
                'steps whose documented result word is < 1 are rejected by the library (ValueError) and are skipped and counted by the generator']
 EXHAUSTIVE = False
 REQUIRED_CLASSES = {'op:arith': 500, 'op:shift': 200, 'op:bitwise': 200, 'op:reduce': 200, 'op:resize': 200, 'op:index': 100, 'op:construct': 300,
-                    'sat:float-huge': 500, 'sat:int-huge': 500, 'sat:container-huge': 300, 'objects-checked': 5000}
+                    'sat:float-huge': 500, 'sat:int-huge': 500, 'sat:container-huge': 300, 'objects-checked': 5000, 'accumulator': 300}
 
 
 def check_object(x, where):
@@ -494,7 +494,52 @@ def check_saturate_container(ctx, case, v, exact, sig):
                 return
 
 
-CHECKS = {'program': check_program, 'saturate': check_saturate}
+def check_accumulator(ctx, case):
+    """An object that is its own result target (config.op_out / op_out_like = itself) and objects derived from it with
+    like= / template= / indexing: every one is well-formed, usable, and refers to ITSELF, not to the object it came from."""
+    fmt = tuple(case['fmt'])
+    s, w, f = fmt
+    F = C.Fxp()
+    ctx.ev()
+    how, derive = case['how'], case['derive']
+    sig = 'accumulator/%s/%s' % (how, derive)
+    v0, v1, c = (C.v_from_x4(int(x), f) for x in case['x4s'])
+
+    def do():
+        acc = F(float(v0), s, w, f)
+        setattr(acc.config, how, acc)
+        r = acc + float(c)
+        check_object(acc, sig + '/accumulator')
+        check_object(r, sig + '/result')
+        if how == 'op_out' and r is not acc:
+            raise Mismatch(sig + '/result-not-delivered-into-op_out', {})
+        before = (C.flat(C.codes(acc)), dict(acc.status))
+        if derive == 'like':
+            y = F(float(v1), like=acc)
+        elif derive == 'template':
+            y = F(float(v1), template=acc)
+        else:
+            arr = F([float(v0), float(v1)], s, w, f)
+            setattr(arr.config, how, arr)
+            y = arr[1]
+            acc, before = arr, (C.flat(C.codes(arr)), dict(arr.status))
+        check_object(y, sig + '/derived')
+        tgt = getattr(y.config, how)
+        if derive != 'index' and tgt is not y:
+            raise Mismatch(sig + '/derived-target-is-not-the-derived-object', {'is_source': tgt is acc})
+        z = y + float(c)
+        check_object(z, sig + '/derived-result')
+        check_object(y, sig + '/derived-after-use')
+        if derive != 'index' and (C.flat(C.codes(acc)), dict(acc.status)) != before:
+            raise Mismatch(sig + '/source-changed-by-derived-arithmetic', {})
+        return None
+    try:
+        ctx.guard(case, do, sig_prefix=sig + '/')
+    except Mismatch as e:
+        ctx.fail(e.sig, case, e.detail)
+
+
+CHECKS = {'program': check_program, 'saturate': check_saturate, 'accumulator': check_accumulator}
 
 
 def replay(ctx, case):
@@ -602,6 +647,24 @@ def body_saturate(ctx, case):
     check_saturate(ctx, case)
 
 
+@st.composite
+def st_accumulator(draw):
+    fmt = draw(C.st_fmt(max_w=24, f_lo=0, f_hi_extra=0))
+    return {'check': 'accumulator', 'fmt': list(fmt), 'how': draw(st.sampled_from(['op_out', 'op_out_like'])), 'derive': draw(st.sampled_from(['like', 'template', 'index'])),
+            'x4s': [draw(C.st_x4(fmt, over=1)) for _ in range(3)]}
+
+
+def body_accumulator(ctx, case):
+    ctx.cls('accumulator')
+    ctx.nontrivial(('acc', repr(sorted((k, repr(v)) for k, v in case.items()))))
+    ctx.sample(case, True)
+    check_accumulator(ctx, case)
+
+
+def task_hyp_accumulator(ctx, n):
+    run_given(ctx, st_accumulator(), body_accumulator, n, ctx.task_seed)
+
+
 def task_hyp_saturate(ctx, n):
     run_given(ctx, st_saturate(), body_saturate, n, ctx.task_seed)
 
@@ -612,4 +675,5 @@ def tasks(tier, scale=1.0):
     out = [('machine-%d' % i, 'task_machine', {'n': n, 'steps': steps}) for i in range(14)]
     nh = int((2500 if tier == 'quick' else 40000) * scale)
     out += [('hyp-saturate-%d' % i, 'task_hyp_saturate', {'n': nh}) for i in range(4)]
+    out += [('hyp-accumulator-%d' % i, 'task_hyp_accumulator', {'n': nh // 5}) for i in range(2)]
     return out
